@@ -18,6 +18,7 @@ close), journals them, and is where faults are injected:
 from __future__ import annotations
 
 import errno
+import os
 import io
 
 from .loop import SimCrash
@@ -87,7 +88,34 @@ class SimDisk:
     def sync_open(self, file, mode="r", buffering=-1, encoding=None, errors=None, newline=None,
                   closefd=True, opener=None):
         path = str(file)
-        raw = SimRawIO(self, path, mode)
+        flags = None
+        if opener is not None:
+            # open(..., opener=f): CPython hands f the flags it derived from the mode and uses the descriptor f returns.
+            # The os.open() call inside f is captured, and the flags it REALLY used decide what happens to the file
+            # (an opener that forgets O_TRUNC does not truncate).
+            acc = os.O_RDWR if "+" in mode else (os.O_RDONLY if "r" in mode else os.O_WRONLY)
+            pyflags = acc | getattr(os, "O_CLOEXEC", 0)
+            if "w" in mode:
+                pyflags |= os.O_CREAT | os.O_TRUNC
+            elif "x" in mode:
+                pyflags |= os.O_CREAT | os.O_EXCL
+            elif "a" in mode:
+                pyflags |= os.O_CREAT | os.O_APPEND
+            captured = {}
+            real_os_open = os.open
+
+            def sim_os_open(p, fl, mode=0o777, *, dir_fd=None):  # noqa: ARG001
+                captured["flags"] = fl
+                return 987654
+
+            os.open = sim_os_open
+            try:
+                opener(path, pyflags)
+            finally:
+                os.open = real_os_open
+            flags = captured.get("flags", pyflags)
+            self._log("opener", path, flags)
+        raw = SimRawIO(self, path, mode, flags=flags)
         binary = "b" in mode
         if raw.writable() and not raw.readable():
             buf = io.BufferedWriter(raw, buffer_size=buffering if buffering and buffering > 1 else io.DEFAULT_BUFFER_SIZE)
@@ -131,7 +159,7 @@ class SimDisk:
 
 
 class SimRawIO(io.RawIOBase):
-    def __init__(self, disk: SimDisk, path: str, mode: str) -> None:
+    def __init__(self, disk: SimDisk, path: str, mode: str, flags: int | None = None) -> None:
         super().__init__()
         self.disk = disk
         self.path = path
@@ -147,7 +175,22 @@ class SimRawIO(io.RawIOBase):
             raise SimCrash
         if r == "frozen":
             return
-        if "r" in mode:  # "r" and "r+": the file must exist, nothing is truncated
+        if flags is not None:  # opened through an opener: the flags given to os.open() rule
+            exists = path in disk.files
+            if flags & os.O_CREAT and flags & os.O_EXCL and exists:
+                raise FileExistsError(errno.EEXIST, "sim: exists", path)
+            if not exists:
+                if not flags & os.O_CREAT:
+                    disk._log("open-missing", path)
+                    raise FileNotFoundError(errno.ENOENT, "sim: no such file", path)
+                disk.files[path] = bytearray()
+            if flags & os.O_TRUNC:
+                disk.files[path] = bytearray()
+            if self._w:
+                disk.mutating_ops += 1
+            if flags & os.O_APPEND:
+                self._pos = len(disk.files[path])
+        elif "r" in mode:  # "r" and "r+": the file must exist, nothing is truncated
             if path not in disk.files:
                 disk._log("open-missing", path)
                 raise FileNotFoundError(errno.ENOENT, "sim: no such file", path)
